@@ -238,3 +238,49 @@ func Luma(img image.Image) []float64 {
 	}
 	return out
 }
+
+var cosCache = map[[2]int][]float64{}
+
+func cosTable(n, k int) []float64 {
+	if t, ok := cosCache[[2]int{n, k}]; ok {
+		return t
+	}
+	t := make([]float64, k*n)
+	for u := 0; u < k; u++ {
+		for i := 0; i < n; i++ {
+			t[u*n+i] = math.Cos(math.Pi * (float64(i) + 0.5) * float64(u) / float64(n))
+		}
+	}
+	cosCache[[2]int{n, k}] = t
+	return t
+}
+
+// LowBlock returns the k x k low-frequency block of the unscaled 2-D DCT-II of an
+// n x n luminance array by definition, laid out [k*j+i] = (vertical frequency j, horizontal frequency i).
+func LowBlock(lum []float64, n, k int) []float64 {
+	t := cosTable(n, k)
+	h := make([]float64, n*k)
+	for r := 0; r < n; r++ {
+		row := lum[r*n : r*n+n]
+		for i := 0; i < k; i++ {
+			s := 0.0
+			cr := t[i*n : i*n+n]
+			for c, v := range row {
+				s += v * cr[c]
+			}
+			h[r*k+i] = s
+		}
+	}
+	out := make([]float64, k*k)
+	for j := 0; j < k; j++ {
+		cj := t[j*n : j*n+n]
+		for i := 0; i < k; i++ {
+			s := 0.0
+			for r := 0; r < n; r++ {
+				s += h[r*k+i] * cj[r]
+			}
+			out[k*j+i] = s
+		}
+	}
+	return out
+}
